@@ -12,6 +12,7 @@ import (
 	"regexp"
 	"sort"
 	"strings"
+	"syscall"
 	"time"
 )
 
@@ -95,6 +96,10 @@ func runOnce(dir string, timeout time.Duration, name string, args ...string) (ru
 	var so, se bytes.Buffer
 	cmd.Stdout, cmd.Stderr = &so, &se
 	cmd.Stdin = nil
+	// own process group: a command that hangs is killed together with the helpers it started
+	// (git-upload-pack / git-receive-pack keep the output pipes open otherwise)
+	cmd.SysProcAttr = &syscall.SysProcAttr{Setpgid: true}
+	cmd.WaitDelay = 5 * time.Second
 	if err := cmd.Start(); err != nil {
 		return runResult{}, err
 	}
@@ -104,6 +109,7 @@ func runOnce(dir string, timeout time.Duration, name string, args ...string) (ru
 	select {
 	case werr = <-done:
 	case <-time.After(timeout):
+		syscall.Kill(-cmd.Process.Pid, syscall.SIGKILL)
 		cmd.Process.Kill()
 		<-done
 		return runResult{Out: so.String(), Err: se.String(), Code: -1}, fmt.Errorf("%s %v timed out after %s", name, args, timeout)
